@@ -130,6 +130,9 @@ def apply_edit(tree, e, data):
     return apply_edit_raw(tree, e, data)
 
 
+ALIAS_WATCH = []
+
+
 def apply_edit_raw(tree, e, data):
     """apply_edit without the grammar's side conditions (used to compare WHERE the code raises with the model's None)"""
     op = e[0]
@@ -167,6 +170,13 @@ def apply_edit_raw(tree, e, data):
         parent = None if e[2] is None else node_of(tree, e[2])
         new.add_subtree(sub, parent=parent)
         new.update()
+        # the sampler grafts the SAME detached subtree into one candidate per attachment point: a second candidate and the
+        # detached subtree are watched, later in-place edits of `new` must not change them (no shared payloads)
+        other = pruned.copy()
+        other.add_subtree(sub, parent=None)
+        other.update()
+        ALIAS_WATCH.append(other)
+        ALIAS_WATCH.append(sub)
         return new
     if op == "SubtreeResample":
         x, spec = e[1], e[2]
@@ -446,6 +456,7 @@ def replay(spec, hist, data, tol_unit=1e-8, stop_at_first=True):
     """Run a history on the real tree with the oracles after every edit.
     Returns (trees-after-each-edit or None, failure) with failure = None | (prop, step, what)."""
     tree = build_tree(spec, data)
+    del ALIAS_WATCH[:]
     expected = list(spec_points_(spec))
     tol = tol_unit * max(1, len(hist))
     kept = []  # (old tree, snapshot) after Copy edits: the original must not change when the copy is edited
@@ -463,14 +474,29 @@ def replay(spec, hist, data, tol_unit=1e-8, stop_at_first=True):
             return None, ("EXC", k, "%s: %s%s" % (type(ex).__name__, str(ex)[:120], (" @ " + where[-1][:140]) if where else ""))
         if snap is not None:
             kept.append((k, before, snap))
+        while ALIAS_WATCH:
+            w = ALIAS_WATCH.pop()
+            try:
+                kept.append((k, w, snapshot(w)))
+            except Exception as ex:
+                del ALIAS_WATCH[:]
+                return None, ("C06", k, "graft aliasing: a second candidate built from the same detached subtree (as the prune-regraft sampler "
+                                        "does) cannot even be inspected after the first graft (%s: %s)" % (type(ex).__name__, str(ex)[:80]))
         expected += delta_points(e, None)
         c07, c06 = check_state(tree, data, expected, tol)
         if c07:
             return None, ("C07", k, c07)
         if c06:
             return None, ("C06", k, c06)
-        for (k0, old, sn) in kept[-3:]:
-            if old is not tree and not snapshot_equal(old, sn):
+        for (k0, old, sn) in kept[-9:]:
+            if old is tree:
+                continue
+            try:
+                same = snapshot_equal(old, sn)
+            except Exception as ex:  # the watched tree cannot be read any more: its payloads were changed through another tree
+                return None, ("C06", k, "aliasing: a tree kept from edit %d (copy / sibling candidate / detached subtree) became unreadable "
+                                        "after a later edit of another tree (%s: %s)" % (k0, type(ex).__name__, str(ex)[:80]))
+            if not same:
                 return None, ("C06", k, "copy aliasing: the tree copied before edit %d changed when its copy was edited" % k0)
     return tree, None
 
